@@ -41,6 +41,20 @@ package contracts
 //@ extern func rand.Seed(seed int64)
 
 //@ extern func time.Now() (t time.Time)
+//@   modifies clock
+//@   ensures t == clock && clock >= old(clock) && t > 0
+//@ extern func (t time.Time) Add(d time.Duration) (r time.Time)
+//@   pure
+//@   ensures r == t + d
+//@ extern func (t time.Time) After(u time.Time) (r bool)
+//@   pure
+//@   ensures r == (t > u)
+//@ extern func (t time.Time) Before(u time.Time) (r bool)
+//@   pure
+//@   ensures r == (t < u)
+//@ extern func (t time.Time) Sub(u time.Time) (r time.Duration)
+//@   pure
+//@   ensures r == t - u
 //@ extern func (t time.Time) UTC() (r time.Time)
 //@   pure
 //@ extern func (t time.Time) UnixNano() (r int64)
@@ -66,12 +80,22 @@ package contracts
 // net addresses: String/Network are pure functions of the address value (trusted)
 //@ extern func (a net.Addr) String() (s string)
 //@   pure
+//@   ensures s == addrStr[ref(a)]
 //@ extern func (a net.Addr) Network() (s string)
 //@   pure
+//@   ensures s == addrNet[ref(a)]
 //@ extern func (a *net.UDPAddr) String() (s string)
 //@   pure
+//@   ensures s == addrStr[ref(a)]
 //@ extern func (a *net.UDPAddr) Network() (s string)
 //@   pure
+//@   ensures s == addrNet[ref(a)]
+//@ extern func (ip net.IP) String() (s string)
+//@   pure
+//@   ensures s == ipStr[base(ip)]
+//@ extern func (ip net.IP) Equal(x net.IP) (r bool)
+//@   pure
+//@   ensures r == (ipStr[base(ip)] == ipStr[base(x)])
 
 //@ extern func (e binary.littleEndian) Uint64(b []byte) (r uint64)
 //@   pure
@@ -91,3 +115,9 @@ package contracts
 //@   modifies b[*]
 //@   ensures b[7] == v % 256 && b[6] == (v / 256) % 256 && b[5] == (v / 65536) % 256 && b[4] == (v / 16777216) % 256 && b[3] == (v / 4294967296) % 256 && b[2] == (v / 1099511627776) % 256 && b[1] == (v / 281474976710656) % 256 && b[0] == (v / 72057594037927936) % 256
 //@   ensures forall i mathint :: {b[i]} 8 <= i && i < len(b) ==> b[i] == old(b[i])
+
+// ---- ghost views of library values (trusted): textual form of addresses and IPs, the clock
+//@ ghost global addrStr map[mathint]string
+//@ ghost global addrNet map[mathint]string
+//@ ghost global ipStr map[mathint]string
+//@ ghost global clock mathint
